@@ -139,12 +139,15 @@ def alpha(size, tier):
     A = [["int", i] for i in ints]
     A += [["slice", a, b, s] for a in ends for b in ends for s in steps]
     A += [["tensor", [0]], ["tensor", [size - 1, 0]], ["tensor", [0, 0, size - 1]]]
+    A += [["tensor0", -1]]   # a 0-dim integer tensor is the int it stands for
     return A
 
 
 def mkidx(e):
     if e[0] == "int":
         return e[1]
+    if e[0] == "tensor0":
+        return torch.tensor(e[1], dtype=torch.long)
     if e[0] == "slice":
         return slice(e[1], e[2], e[3])
     return torch.tensor(e[1], dtype=torch.long)
